@@ -662,11 +662,18 @@ pub fn check_journal(events: &[Event], prune_points: &[(usize, Vec<u32>, Vec<u32
     for (idx, live_jobs, live_workers) in prune_points.iter().take(3) {
         let idx = (*idx).min(events.len());
         let pf = dir.join("pruned.journal");
-        if copy_truncated(&full, &pf, bounds[idx]).is_err() {
+        // the last m records before the prune request are still in the journal thread's write
+        // buffer when the request arrives (the thread flushes only periodically)
+        let m = if rng.chance(60, 100) { rng.usize_below(idx.min(8) + 1) } else { 0 };
+        if copy_truncated(&full, &pf, bounds[idx - m]).is_err() {
             continue;
         }
+        if m > 0 {
+            rep.c("prunes_with_unflushed_records", 1);
+        }
+        let buffered: Vec<Event> = events[idx - m..idx].to_vec();
         let appended: Vec<Event> = events[idx..].iter().take(rng.usize_below(12) + 1).cloned().collect();
-        match prune_via_thread(&pf, live_jobs, live_workers, &appended, rng.chance(30, 100)) {
+        match prune_via_thread(&pf, &buffered, live_jobs, live_workers, &appended, rng.chance(30, 100)) {
             Err(e) => {
                 rep.v("C12", "U0-prune-failed", format!("prune at record {idx}: {e}"));
                 continue;
@@ -728,13 +735,16 @@ pub fn check_journal(events: &[Event], prune_points: &[(usize, Vec<u32>, Vec<u32
 }
 
 /// Runs the real journal thread on `path`: prune with the given live sets, then append records.
-fn prune_via_thread(path: &Path, live_jobs: &[u32], live_workers: &[u32], appended: &[Event], prune_twice: bool) -> Result<(), String> {
+fn prune_via_thread(path: &Path, buffered: &[Event], live_jobs: &[u32], live_workers: &[u32], appended: &[Event], prune_twice: bool) -> Result<(), String> {
     let writer = JournalWriter::create_or_append(path, None).map_err(|e| format!("{e:?}"))?;
     let (tx, end) = start_event_streaming(writer, path, Duration::from_secs(3600));
     let rt = tokio::runtime::Builder::new_current_thread().enable_time().build().unwrap();
     let lj: Set<tako::JobId> = live_jobs.iter().map(|j| (*j).into()).collect();
     let lw: Set<WorkerId> = live_workers.iter().map(|w| (*w).into()).collect();
     rt.block_on(async {
+        for e in buffered {
+            tx.send(EventStreamMessage::Event(e.clone())).map_err(|_| "journal thread gone".to_string())?;
+        }
         for _ in 0..(1 + prune_twice as usize) {
             let (cb, rx) = tokio::sync::oneshot::channel();
             tx.send(EventStreamMessage::PruneJournal { callback: cb, live_jobs: lj.clone(), live_workers: lw.clone() }).map_err(|_| "journal thread gone".to_string())?;
@@ -919,7 +929,7 @@ pub fn main(args: &[String]) -> i32 {
         "C10" => json!({"cuts_compared": 1000, "pending_tasks_checked": 3000, "pending_tasks_started_before": 60, "pending_tasks_with_deps": 60, "torn_tails": 40, "crash_runs.restarts": 5, "journals_with_queue_records": 10}),
         "C11" => json!({"cuts_compared": 1000, "cuts_highest_job_gone": 8, "crash_runs.restarts": 5}),
         "C03" | "C06" | "C07" => json!({}),
-        _ => json!({"prunes": 15, "prunes_with_pending_tasks": 8, "prunes_that_removed_records": 8, "journals_with_queue_records": 10}),
+        _ => json!({"prunes": 15, "prunes_with_pending_tasks": 8, "prunes_that_removed_records": 8, "journals_with_queue_records": 10, "prunes_with_unflushed_records": 8}),
     };
     let summary = json!({
         "prop": prop, "shard": shard, "seed": seed, "runs": runs, "steps": steps,
